@@ -50,6 +50,8 @@ def main():
         for line in o.splitlines():
             if line.startswith("{"):
                 s = json.loads(line)
+                if s["func"].startswith(("draw", "pointer")):
+                    continue  # the aligners' debugging table printers (dead unless a debug constant is set)
                 tasks.append((f, ids, s))
     if limit:
         step = max(1, len(tasks) // limit)
